@@ -223,9 +223,9 @@ theorem update_ready (h : HS) (hl : linked h = true) :
             Bool.false_or]
           refine ⟨⟨⟨⟨⟨⟨⟨l1, r1⟩, ho'⟩, hckl'⟩, hckr'⟩, hLc'⟩, ⟨⟨⟨⟨hs', hc'⟩, ?_⟩, ?_⟩, ?_⟩⟩, hep⟩
           · rcases hne' with h | h | h
-            · left; left; simpa using h
+            · left; left; left; simpa using h
+            · left; left; right; exact h
             · left; right; exact h
-            · right; exact h
           · rw [l3.isU]; exact hul
           · rw [r3.isU]; exact hur
         · rw [fmt_bin ho, fmt_bin ho']
